@@ -236,7 +236,12 @@ func hashDecisions(ds []simhook.Decision) string {
 // drawSched draws a scheduling configuration (swarm style).
 func drawSched(r *Rand, estLen int64) simhook.Config {
 	cfg := simhook.Config{Seed: r.U64()}
-	switch k := r.Intn(10); {
+	switch k := r.Intn(12); {
+	case k >= 10:
+		// preempt only in front of lock acquisitions, each with probability 1/SyncProb
+		cfg.Strategy = "sync"
+		cfg.SyncProb = Pick(r, []int{2, 3, 4, 6, 10, 20})
+		cfg.MeanGap = 50
 	case k < 4:
 		cfg.Strategy = "random"
 		cfg.MeanGap = Pick(r, []int{1, 2, 3, 5, 10, 25, 60, 200, 1000})
@@ -244,6 +249,12 @@ func drawSched(r *Rand, estLen int64) simhook.Config {
 		cfg.Strategy = "pct"
 		cfg.PCTDepth = r.Range(1, 4)
 		cfg.PCTLen = estLen
+		if r.Chance(0.5) {
+			// change points at the n-th lock acquisition of the run
+			cfg.PCTSync = true
+			cfg.PCTDepth = r.Range(2, 4)
+			cfg.PCTLen = int64(Pick(r, []int{100, 100, 300, 1000, 3000, 10000}))
+		}
 	case k < 7:
 		cfg.Strategy = "nonpreemptive"
 	case k < 8:
